@@ -23,8 +23,8 @@ EXPLANATION = (
     "the message table, instrument announcement in play_Tracks and the default channels of play_Composition are "
     "evaluated; loops that mutate the list they iterate are reported (typestate lint with a positive fixture).")
 TRUSTED = ["CPython ast module", "mingus_static abstract evaluator + rational functions", "event model in rules/c18.py"]
-NOT_DECIDED = ("the parallel scheduler of play_Bars on unequal rhythms (re-triggering of long notes, bars that are not full): an algorithm over "
-               "runtime lists; play_Bars is decided on parallel full bars with equal rhythms (seven shapes, symbolic tempo and pitches)")
+NOT_DECIDED = ("play_Bars beyond the eleven shapes of parallel full bars it is evaluated on (seven with equal rhythms and tempo changes, four with "
+               "different rhythms; symbolic tempo, pitches, channels, velocities; rhythms concrete); bars that are not full; float rounding of tick sums")
 
 SQ, SO, NOTE, NC, BAR, TR, INS = ("mingus.midi.sequencer", "mingus.midi.sequencer_observer", "mingus.containers.note",
                                   "mingus.containers.note_container", "mingus.containers.bar", "mingus.containers.track",
@@ -98,13 +98,14 @@ def run(ctx):
     rule_control_change(ctx)
     rule_bars(ctx)
     rule_parallel_bars(ctx)
+    rule_unequal_rhythms(ctx)
     rule_tracks(ctx)
     rule_mutation_while_iterating(ctx)
     ctx.floor("R-C18-1", 15)
     ctx.floor("R-C18-2", 4)
     ctx.floor("R-C18-3", 3)
     ctx.floor("R-C18-4", 8)
-    ctx.floor("R-C18-5", 22)
+    ctx.floor("R-C18-5", 26)
     ctx.floor("R-C18-6", 4)
     ctx.floor("R-C18-7", 2)
 
@@ -451,6 +452,100 @@ def rule_parallel_bars(ctx):
                 ok, why = False, "observers and hooks see different low-level streams: %s" % d2
             elif not (isinstance(res, dict) and set(res) == {"bpm"} and same_val(it, res["bpm"], final)):
                 ok, why = False, "returns %r, expected {'bpm': final tempo}" % (res,)
+        ctx.check(ok, R, "play_Bars[%s]" % label, f.where(), "Sequencer.play_Bars(<%s>)" % label, why)
+
+
+def model_timeline(descs, bpm):
+    """Bars with different rhythms: the union of their time lines.  Returns [(group of events, sleep or None)]: at
+    every boundary the entries ending there stop and the entries beginning there start, then one sleep lasts until the
+    next boundary.  (Tempo changes are not used in these shapes.)"""
+    from fractions import Fraction
+    spans = []  # (start, end, notes)
+    for desc in descs:
+        at = Fraction(0)
+        for k, d, notes, newbpm, content in desc:
+            spans.append((at, at + Fraction(1) / Fraction(d).limit_denominator(1000), notes))
+            at += Fraction(1) / Fraction(d).limit_denominator(1000)
+    times = sorted({t for a, b, _ in spans for t in (a, b)})
+    out = []
+    b = RatFun.of(bpm)
+    for i, t in enumerate(times):
+        group = []
+        for a, e, notes in spans:
+            if e == t:
+                group += [("stop_event", [n.attrs["pitch"] + 12, n.attrs["channel"]]) for n in notes]
+        for a, e, notes in spans:
+            if a == t:
+                group += [("play_event", [n.attrs["pitch"] + 12, n.attrs["channel"], n.attrs["velocity"]]) for n in notes]
+        sleep = None
+        if i + 1 < len(times):
+            d = times[i + 1] - t
+            sleep = ("sleep", [RatFun(RatFun.of(240 * d.numerator).num * b.den, b.num * RatFun.of(d.denominator).num)])
+        out.append((group, sleep))
+    return out
+
+
+def rule_unequal_rhythms(ctx):
+    """play_Bars on parallel bars whose rhythms differ: every entry is started once and stopped once, at its own
+    boundaries; the sleeps add up along the union of the bars' time lines."""
+    R = "R-C18-5"
+    repo = ctx.repo
+    sci, oci, summ = world(repo)
+    f = repo.find_method(sci, "play_Bars")
+    shapes = [
+        ("whole against quarters", [["N1"], ["N1", "N1", "N1", "N1"]], [[1], [4, 4, 4, 4]]),
+        ("halves against quarter-half-quarter", [["N1", "N2"], ["N1", "N1", "N1"]], [[2, 2], [4, 2, 4]]),
+        ("rest in one bar", [["N1", "R"], ["N1", "N1", "N2"]], [[2, 2], [4, 4, 2]]),
+        ("three bars", [["N1"], ["N1", "N1"], ["N1", "N1", "N1", "N1"]], [[1], [2, 2], [4, 4, 4, 4]]),
+    ]
+    for label, kinds_per_bar, durs_per_bar in shapes:
+        bpm0 = RatFun.var("bpm")
+        channels = [3 + i for i in range(len(kinds_per_bar))]
+
+        def go(it):
+            seq, obs = make_seq(sci, oci)
+            built = [build_bar_fixed(repo, kinds, durs, "u%d" % i) for i, (kinds, durs) in enumerate(zip(kinds_per_bar, durs_per_bar))]
+            return it.call_function(f, [seq, [b for b, _ in built], list(channels), bpm0], {}), [d for _, d in built]
+        try:
+            p = explore(lambda ch: Interp(repo, ch, summaries=summ, max_depth=30), go)
+        except CannotDecide as e:
+            raise AnalysisError("play_Bars on %s: %s" % (label, e))
+        ok, why = len(p) == 1 and p[0].kind == "return", "outcome %s" % [(x.kind, short(repr(x.value), 60)) for x in p][:2]
+        if ok:
+            it = p[0].interp
+            res, descs = p[0].value
+            got = hook_stream(it)
+            # split the observed stream at the sleeps
+            groups, cur, sleeps = [], [], []
+            for e in got:
+                if e[0] == "sleep":
+                    groups.append(cur)
+                    sleeps.append(e)
+                    cur = []
+                else:
+                    cur.append(e)
+            groups.append(cur)
+            want = model_timeline(descs, bpm0)
+
+            def key(it_, ev):
+                return (ev[0], tuple(repr(it_.resolve(Lin.of(a))) if Lin.of(a) is not None and not isinstance(a, (str, bool)) else repr(a) for a in ev[1]))
+            n_play = sum(1 for e in got if e[0] == "play_event")
+            n_want = sum(1 for g, _ in want for e in g if e[0] == "play_event")
+            if n_play != n_want or sum(1 for e in got if e[0] == "stop_event") != n_want:
+                ok, why = False, "%d play and %d stop events for %d sounding notes (every note is started once and stopped once)" % (
+                    n_play, sum(1 for e in got if e[0] == "stop_event"), n_want)
+            elif len(groups) != len(want):
+                ok, why = False, "%d sleeps, the bars' time lines have %d boundaries" % (len(sleeps), len(want))
+            else:
+                for i, ((wg, ws), g) in enumerate(zip(want, groups)):
+                    if sorted(key(it, e) for e in g) != sorted(key(it, e) for e in wg):
+                        ok, why = False, "at boundary #%d the events are %s, the time lines give %s" % (i, [e[0] for e in g], [e[0] for e in wg])
+                        break
+                    if ws is not None and streams_equal(it, [sleeps[i]], [ws]):
+                        ok, why = False, "sleep #%d: %s" % (i, streams_equal(it, [sleeps[i]], [ws]))
+                        break
+            if ok and streams_equal(it, obs_low_stream(it), got):
+                ok, why = False, "observers and hooks see different low-level streams"
         ctx.check(ok, R, "play_Bars[%s]" % label, f.where(), "Sequencer.play_Bars(<%s>)" % label, why)
 
 
